@@ -887,8 +887,13 @@ impl<const N: usize, T> CircularBuffer<N, T> {
         self.size -= 1;
     }
 
+    /// Drops the elements in `range` (which must include one of the two boundaries of the
+    /// buffer) and sets the start and the size of the buffer to `new_start` and `new_size`.
+    ///
+    /// The start and the size are updated *before* any element is dropped, so that no element is
+    /// dropped twice if a destructor panics.
     #[inline]
-    unsafe fn drop_range(&mut self, range: Range<usize>) {
+    unsafe fn drop_range(&mut self, range: Range<usize>, new_start: usize, new_size: usize) {
         if range.is_empty() {
             return;
         }
@@ -931,6 +936,12 @@ impl<const N: usize, T> CircularBuffer<N, T> {
 
         let _left = Dropper(left);
         let _right = Dropper(right);
+
+        // Shrink the buffer before the elements are dropped (which happens when `_right` and
+        // `_left` go out of scope): if a destructor panics, the elements in `range` are not part
+        // of the buffer anymore and will not be dropped a second time.
+        self.start = new_start;
+        self.size = new_size;
     }
 
     /// Returns a reference to the back element, or `None` if the buffer is empty.
@@ -1825,8 +1836,7 @@ impl<const N: usize, T> CircularBuffer<N, T> {
         // SAFETY: `drop_range` is a valid range, so elements within are guaranteed to be
         // initialized. The `size` of the buffer is shrunk before dropping, so no value will be
         // dropped twice in case of panics.
-        unsafe { self.drop_range(drop_range) };
-        self.size = len;
+        unsafe { self.drop_range(drop_range, self.start, len) };
     }
 
     /// Shortens the buffer, keeping only the back `len` elements and dropping the rest.
@@ -1860,9 +1870,7 @@ impl<const N: usize, T> CircularBuffer<N, T> {
         // SAFETY: `drop_range` is a valid range, so elements within are guaranteed to be
         // initialized. The `start` of the buffer is shrunk before dropping, so no value will be
         // dropped twice in case of panics.
-        unsafe { self.drop_range(drop_range) };
-        self.start = add_mod(self.start, drop_len, N);
-        self.size = len;
+        unsafe { self.drop_range(drop_range, add_mod(self.start, drop_len, N), len) };
     }
 
     /// Drops all the elements in the buffer.
